@@ -429,9 +429,9 @@ fn run(opts: &Opts, acc: &mut Acc) {
         });
     }
     let n = match (opts.tier, opts.is_dbg()) {
-        (crate::engine::Tier::Quick, _) => 12_000,
-        (_, false) => 400_000,
-        (_, true) => 60_000,
+        (crate::engine::Tier::Quick, _) => 200_000,
+        (_, false) => 2_000_000,
+        (_, true) => 300_000,
     };
     random_genomes(acc, opts, "generated", n, 500, |gn, a| check_generated(gn, a));
 }
